@@ -99,3 +99,40 @@ func TestSeed(t *testing.T) {
 	err = tt.Execute(os.Stdout, vars, data)
 	fmt.Println("\nERR", err)
 }
+
+// TestEntriesAgreement: every file of a generated program executed as the entry point (fresh Set each).
+func TestEntriesAgreement(t *testing.T) {
+	n := 2000
+	if s := os.Getenv("PROG_N"); s != "" {
+		n, _ = strconv.Atoi(s)
+	}
+	cfg := Cfg{Items: 3, MaxDepth: 3, Ifs: true, Ranges: true, Vars: true, Blocks: true, MultiFile: true, Includes: true, Try: true, Fails: true, Ctx: true, CondKinds: true, RangeErrs: true, IssetSwallow: true, IncludeIfExists: true, ExecNoReturn: true}
+	bad, unspec, runs := 0, 0, 0
+	classes := map[string]int{}
+	for i := 0; i < n; i++ {
+		r := rand.New(rand.NewSource(int64(i)))
+		p, _ := Gen(r, cfg)
+		for _, f := range p.Files {
+			q := *p
+			q.Main = f.Path
+			m := Eval(&q)
+			if m.Unspecified != "" {
+				unspec++
+				continue
+			}
+			runs++
+			o := q.Run(RunOpts{Opts: []jet.Option{jet.WithSafeWriter(nil)}})
+			if c, d := Compare(m, o, false); c != "" {
+				classes[c]++
+				bad++
+				if bad <= 4 {
+					t.Errorf("seed %d entry %s: %s\n%s", i, f.Path, c, d)
+					for k, v := range p.Sources(false) {
+						fmt.Printf("---- %s\n%s\n", k, v)
+					}
+				}
+			}
+		}
+	}
+	t.Logf("n=%d runs=%d mismatches=%d classes=%v unspecified=%d", n, runs, bad, classes, unspec)
+}
